@@ -255,7 +255,7 @@ func propertyFailsL(prop, op, res, lean string) (why string) {
 			if pt, cnt, ok := specTypeCount(p); ok && (int(h.Type) != pt || int(h.Count) != cnt) {
 				return tagged(fmt.Sprintf("header carries packet type %d and count/FMT %d, the value calls for %d and %d", h.Type, h.Count, pt, cnt), p, tagSLI)
 			}
-			if hh, ok := p.(interface{ Header() rtcp.Header }); ok && kind != "RAW" {
+			if hh, ok := p.(interface{ Header() rtcp.Header }); ok {
 				if hh.Header() != h {
 					return "Header() differs from the emitted header"
 				}
@@ -410,6 +410,11 @@ func propertyFailsL(prop, op, res, lean string) (why string) {
 				for _, p := range ps {
 					if t, ok := p.(*rtcp.TransportLayerCC); ok && !twccConsistent(t) {
 						return ""
+					}
+				}
+				if parts[2] != "err" {
+					if qs := getPackets(NewR(parts[2])); len(qs) != len(ps) {
+						return fmt.Sprintf("the decoded list has %d packets, the re-encoded bytes hold %d (a member was dropped silently)", len(ps), len(qs))
 					}
 				}
 				if parts[2] == "err" {
